@@ -272,7 +272,32 @@ def oracle_toggle(case, res):
                                                              "an odd number of" if v else "an even number of")))
                 break
     else:
-        if monotone([x[0] for x in h], 0):
+        # never while the button is held (any clock, any period): the sample after a sample that read the
+        # button pressed does not change the value
+        prev = False
+        for k, (t, lvl, acc) in enumerate(h):
+            if vals[k] is not prev and k > 0 and h[k - 1][1]:
+                out.append(("dtoggle-change-while-held", "sample %d at tick %d: the value changes to %r although the "
+                            "previous sample (tick %d) already read the button pressed%s -- no released->pressed edge"
+                            % (k, t, vals[k], h[k - 1][0], " and so does this one" if lvl else "")))
+                break
+            prev = vals[k]
+        # a press is not lost: pressed right after a sample that read released (or first of all), every
+        # earlier pressed sample at least p before that released sample (whose reading is >= 0) => the value flips
+        prev = False
+        for k, (t, lvl, acc) in enumerate(h):
+            if out:
+                break
+            if lvl and (k == 0 or not h[k - 1][1]):
+                quiet_at = h[k - 1][0] if k else 0
+                if quiet_at >= 0 and all(quiet_at - u >= p for (u, l2, _) in h[:k] if l2) and vals[k] is prev:
+                    out.append(("dtoggle-missed-press", "sample %d at tick %d reads pressed right after %s and every "
+                                "earlier pressed sample is at least the period (%d ticks) before that, but the value "
+                                "stays %r" % (k, t, ("a released sample at tick %d" % quiet_at) if k else
+                                              "construction", p, vals[k])))
+                    break
+            prev = vals[k]
+        if not out and monotone([x[0] for x in h], 0):
             last_change, prev = None, False
             for k, (t, lvl, acc) in enumerate(h):
                 if vals[k] is not prev:
@@ -466,6 +491,32 @@ def gen_dtoggle(r):
             "h": [[t, l, a] for t, l, a in zip(ts, _levels(r, n), accs)]}
 
 
+def gen_dtoggle_grid(r):
+    """a periodic poll (robot loop): the grid step divides the debounce period, so samples land exactly one
+    period (and k periods) after the press was registered; press-and-hold longer than the period, releases
+    around one period, sometimes a jittered sample"""
+    p = r.choice([0, 1, 2, 4, 6, 16, 32, 32, 64, 64, 128])
+    divs = [d for d in (1, 2, 3, 4, 8, 16, 32, 64, 128) if p and p % d == 0 and p // d <= 8] or [1]
+    dt = r.choice(divs + [max(p, 1)])
+    per = max(p // dt, 1)                                     # grid steps per period
+    t = r.choice([0, 0, 1, dt, 64, r.randrange(0, 300)])
+    h, lvl = [], False
+    n = r.choice([6, 8, 10, 12, 16, 16])
+    seg = 0
+    while len(h) < n:
+        if seg == 0:
+            lvl = not lvl if h or r.random() < 0.7 else lvl
+            seg = r.choice([per + 1, per + 2, 2 * per + 1, per, 1, 2]) if lvl else r.choice([per, per + 1, 1, 2, 2 * per])
+        h.append([t, lvl, r.choice(ACCS)])
+        seg -= 1
+        t += dt if r.random() < 0.93 else r.choice([dt + 1, max(dt - 1, 0), 0, p])
+    return {"kind": "toggle", "period": p, "period_int": r.random() < 0.5, "h": h}
+
+
+def gen_dtoggle_any(r):
+    return gen_dtoggle_grid(r) if r.random() < 0.3 else gen_dtoggle(r)
+
+
 def gen_debouncer(r):
     n = r.choice([1, 2, 3, 5, 8, 8, 12, 16])
     p = r.choice(PERIODS) if r.random() < 0.95 else -r.choice([1, 5, 32])
@@ -580,7 +631,7 @@ def gen_watchdog_any(r):
     return {"kind": "watchdog", "timeout": to, "h": h}
 
 
-GEN = {"toggle": gen_toggle, "dtoggle": gen_dtoggle, "debouncer": gen_debouncer, "filter": gen_filter,
+GEN = {"toggle": gen_toggle, "dtoggle": gen_dtoggle_any, "debouncer": gen_debouncer, "filter": gen_filter,
        "watchdog": gen_watchdog}
 
 
@@ -601,6 +652,18 @@ def edge_cases():
                                                                     ["get", p + 5 + d, True, "get"]]})
             out.append({"kind": "filter", "period": p, "bypass": 30, "h": [[0, 20], [1, 20], [1, 30], [1 + d, 20], [1 + d, 29], [1 + d, 31],
                                                                              [1 + 2 * d, 20], [2 + 2 * d + p, 30], [2 + 2 * d + p, 20]]})
+    # press and hold across the end of the steady window: polled every dt ticks with dt | p (a sample exactly
+    # one period after the registering press), dt = p +- 1, and period 0; then a release of p ticks and a new press
+    for p, dt in ((0, 1), (1, 1), (2, 1), (32, 16), (32, 8), (32, 32), (32, 31), (32, 33), (64, 32), (64, 16)):
+        h, t = [[0, False, "get"]], 10
+        for k in range(2 * (p // dt) + 3):
+            h.append([t, True, ACCS[k % 4]])
+            t += dt
+        for k in range(p // dt + 1):
+            h.append([t, False, ACCS[k % 4]])
+            t += dt
+        h += [[t, True, "on"], [t + dt, True, "off"]]
+        out.append({"kind": "toggle", "period": p, "h": h})
     for to in (0, 1000, 1001, 20000):
         for d in (to - 1, to, to + 1):
             if d < 0:
@@ -855,7 +918,8 @@ def _run(ctx, env):
         "rule": "histories of 0-16 calls per object: corpus, hand-made boundary histories (exactly period-1/period/period+1, "
                 "timeout-1/timeout/timeout+1 us, 999999/1000000/1000001 us between warnings), then seeded random ones per class "
                 "(Toggle plain / Toggle debounced / ButtonDebouncer incl. set_debounce_period / PeriodicFilter / SimpleWatchdog, "
-                "equal shares), increments drawn around the period, ~6% with clocks going backwards or negative, periods 0-128 "
+                "equal shares; 30% of the debounced Toggle histories are polling grids whose step divides the period, button held "
+                "across the end of the steady window and released for about a period), increments drawn around the period, ~6% with clocks going backwards or negative, periods 0-128 "
                 "ticks (0-2 s) and a few negative; non-trivial = toggle: >=1 rising edge through >=2 accessors; debounced toggle: "
                 ">=1 change and >=2 raw edges; debouncer: a True and a refused press; filter: a passed and a suppressed low record "
                 "and a bypass record; watchdog: isExpired both ways or a warning; distinct = distinct histories",
@@ -868,14 +932,20 @@ def _run(ctx, env):
         found = None
         t0 = _time.time()
         # 1. the disagreeing cases themselves (a history on which the implementation agrees with the
-        #    model cannot violate a proved clause, so this is where a violation must show up)
-        for i in bad:
-            if _time.time() - t0 > 120:
+        #    model cannot violate a proved clause, so this is where a violation must show up);
+        #    one failing history per distinct clause of the property (at most 3 clauses)
+        per_clause = {}
+        for n, i in enumerate(bad):
+            if _time.time() - t0 > 120 or len(per_clause) >= 3 or (per_clause and n >= 300):
                 break
             _, vs = violations_of(env, cases[i])
-            if vs:
-                found = (cases[i], vs[0])
-                break
+            for clause, what in vs:
+                per_clause.setdefault(clause, (cases[i], what))
+        if per_clause:
+            out = [make_violation(env, ctx if k == 0 else None, case, clause, what)
+                   for k, (clause, (case, what)) in enumerate(per_clause.items())]
+            out[0]["clauses_failing_on_other_histories"] = [o["what"] for o in out[1:]]
+            return out
         # 2. the corpus and a bigger batch from the same generators (10x the tier's volume, time-capped),
         #    with the probes that look at copies of the object's state
         if found is None:
